@@ -47,25 +47,29 @@ structure W (α : Type) where
 
 def upd {β : Type} (f : String → β) (k : String) (v : β) : String → β := fun k' => if k' = k then v else f k'
 
-/-- `_RunWriter.event` for an event of stream `s` whose table row is `row` -/
+/-- `_RunWriter.event` for an event of stream `s` whose table row is `row`:
+    `data_cache.append(row); if <flushCond>: write(data_cache); data_cache.clear()` -/
 def event {α} (w : W α) (s : String) (row : α) : W α :=
-  let cache := w.rows s ++ [row]
-  if flushCond cache.length w.batch then
-    { w with parts := upd w.parts s (w.parts s ++ [cache]), rows := upd w.rows s (if eventClears then [] else cache) }
-  else { w with rows := upd w.rows s cache }
+  if flushCond ((w.rows s ++ [row]).length : Int) w.batch then
+    { w with parts := upd w.parts s (w.parts s ++ [w.rows s ++ [row]]),
+             rows := upd w.rows s (if eventClears then [] else w.rows s ++ [row]) }
+  else { w with rows := upd w.rows s (w.rows s ++ [row]) }
+
+/-- the non-immediate part of `_RunWriter.stream_datum` when a datum `c` is already cached -/
+def mergeCached {α} (w : W α) (c d : SD) : W α :=
+  match concat2 c d with
+  | some m =>
+    if extFlushCond m.i0 m.i1 w.batch then
+      { w with ext := upd w.ext d.sres none, extW := upd w.extW d.sres (w.extW d.sres ++ [m]) }
+    else { w with ext := upd w.ext d.sres (some m) }
+  | none => { w with ext := upd w.ext d.sres none, extW := upd w.extW d.sres (w.extW d.sres ++ [c, d]) }
 
 /-- `_RunWriter.stream_datum` -/
 def streamDatum {α} (w : W α) (d : SD) : W α :=
-  let k := d.sres
-  if immediateCond w.batch then { w with extW := upd w.extW k (w.extW k ++ [d]) } else
-  match w.ext k with
-  | none => { w with ext := upd w.ext k (some d) }
-  | some c =>
-    match concat2 c d with
-    | some m =>
-      if extFlushCond m.i0 m.i1 w.batch then { w with ext := upd w.ext k none, extW := upd w.extW k (w.extW k ++ [m]) }
-      else { w with ext := upd w.ext k (some m) }
-    | none => { w with ext := upd w.ext k none, extW := upd w.extW k (w.extW k ++ [c, d]) }
+  if immediateCond w.batch then { w with extW := upd w.extW d.sres (w.extW d.sres ++ [d]) } else
+  match w.ext d.sres with
+  | none => { w with ext := upd w.ext d.sres (some d) }
+  | some c => mergeCached w c d
 
 /-- `_RunWriter.stop`: flush what is still cached (the stream-datum cache itself is not emptied) -/
 def stop {α} (w : W α) : W α :=
